@@ -6,6 +6,7 @@ import Mathlib.Tactic.NormNum
 import Mathlib.Tactic.LinearCombination
 import Mathlib.Tactic.FieldSimp
 import Mathlib.Tactic.Positivity
+import Mathlib.Analysis.Real.Pi.Bounds
 /-
 C24 helper lemmas: closed formulas over ℝ of the *generated* kernels of `engine_util_spatial.c`
 (`MjProof/Gen/Kernels.lean`, regenerated from the working tree on every run).  Every lemma here is proved
@@ -65,6 +66,8 @@ noncomputable def normalize4 (q : Quat) : ℝ × Quat :=
   mju_normalize4 (α := ℝ) q.1 q.2.1 q.2.2.1 q.2.2.2
 noncomputable def quatIntegrate (q : Quat) (vel : Vec3) (scale : ℝ) : Quat :=
   mju_quatIntegrate (α := ℝ) q.1 q.2.1 q.2.2.1 q.2.2.2 vel.1 vel.2.1 vel.2.2 scale
+noncomputable def quat2Vel (q : Quat) (dt : ℝ) : Vec3 :=
+  mju_quat2Vel (α := ℝ) q.1 q.2.1 q.2.2.1 q.2.2.2 dt
 noncomputable def subQuat (qa qb : Quat) : Vec3 :=
   mju_subQuat (α := ℝ) qa.1 qa.2.1 qa.2.2.1 qa.2.2.2 qb.1 qb.2.1 qb.2.2.1 qb.2.2.2
 noncomputable def mulPose (P1 P2 : Pose) : Pose :=
@@ -373,6 +376,72 @@ theorem pivot_neg (x E : ℝ) (hE : E = (2*x)^2) (hx : x < 0) : 1/2 * Real.sqrt 
   rw [hE, this, Real.sqrt_sq (by linarith)]; ring
 theorem neg_unit (q0 q1 q2 q3 : ℝ) (h : q0*q0+q1*q1+q2*q2+q3*q3 = 1) :
     (-q0)*(-q0)+(-q1)*(-q1)+(-q2)*(-q2)+(-q3)*(-q3) = 1 := by linear_combination h
+
+
+/-! ### `mju_quat2Vel` of an axis-angle quaternion (stage 2, trigonometric) -/
+
+theorem piLit_lt_pi : piLit < Real.pi := by
+  have := Real.pi_gt_d20
+  unfold piLit
+  norm_num at this ⊢
+  linarith
+
+theorem piLit_pos : 0 < piLit := by unfold piLit; norm_num
+
+/-- C `atan2(|sin x|, cos x) = |x|` for |x| < π/2 -/
+theorem realAtan2_abs_sin_cos (x : ℝ) (h1 : -(Real.pi / 2) < x) (h2 : x < Real.pi / 2) :
+    realAtan2 |Real.sin x| (Real.cos x) = |x| := by
+  have hc : 0 < Real.cos x := Real.cos_pos_of_mem_Ioo ⟨h1, h2⟩
+  unfold realAtan2
+  rw [if_pos hc]
+  rcases le_or_gt 0 x with hx | hx
+  · have hs : 0 ≤ Real.sin x := Real.sin_nonneg_of_nonneg_of_le_pi hx (by linarith [Real.pi_pos])
+    rw [abs_of_nonneg hs, abs_of_nonneg hx, ← Real.tan_eq_sin_div_cos, Real.arctan_tan h1 h2]
+  · have hs : Real.sin x < 0 := Real.sin_neg_of_neg_of_neg_pi_lt hx (by linarith [Real.pi_pos])
+    rw [abs_of_neg hs, abs_of_neg hx, ← Real.sin_neg, ← Real.cos_neg x, ← Real.tan_eq_sin_div_cos,
+      Real.arctan_tan (by linarith) (by linarith)]
+
+theorem mju_quat2Vel_axisAngle (u0 u1 u2 a : ℝ) (hu : u0*u0 + u1*u1 + u2*u2 = 1) (ha : |a| ≤ piLit)
+    (hs : minval ≤ |Real.sin (a * (1/2))|) :
+    mju_quat2Vel (Real.cos (a * (1/2))) (u0 * Real.sin (a * (1/2))) (u1 * Real.sin (a * (1/2)))
+      (u2 * Real.sin (a * (1/2))) 1 = (u0 * a, u1 * a, u2 * a) := by
+  have hpi := piLit_lt_pi
+  have hx1 : -(Real.pi / 2) < a * (1/2) := by have := (abs_le.mp ha).1; linarith
+  have hx2 : a * (1/2) < Real.pi / 2 := by have := (abs_le.mp ha).2; linarith
+  have hat := realAtan2_abs_sin_cos (a * (1/2)) hx1 hx2
+  set s := Real.sin (a * (1/2)) with hs_def
+  set c := Real.cos (a * (1/2)) with hc_def
+  have hsq : Real.sqrt (u0 * s * (u0 * s) + u1 * s * (u1 * s) + u2 * s * (u2 * s)) = |s| := by
+    rw [show u0 * s * (u0 * s) + u1 * s * (u1 * s) + u2 * s * (u2 * s) = s ^ 2 by
+      linear_combination s ^ 2 * hu]
+    exact Real.sqrt_sq_eq_abs s
+  have hspos : 0 < |s| := lt_of_lt_of_le minval_pos hs
+  have hsne : s ≠ 0 := abs_pos.mp hspos
+  simp only [mju_quat2Vel, mju_normalize3_eq, real_ofInt, real_atan2, ofSci_pi, decide_eq_true_eq, real_lt_iff]
+  push_cast
+  rw [hsq, if_neg (not_lt.mpr hs), hat]
+  have hnl : ¬ (piLit < 2 * |a * (1/2)|) := by
+    rw [abs_mul, abs_of_pos (by norm_num : (0:ℝ) < 1/2)]
+    intro h; linarith
+  rw [if_neg hnl]
+  rcases lt_or_gt_of_ne hsne with hneg | hpos
+  · have hane : a < 0 := by
+      by_contra hcon
+      have : 0 ≤ s := Real.sin_nonneg_of_nonneg_of_le_pi (by linarith [not_lt.mp hcon]) (by linarith [Real.pi_pos])
+      linarith
+    rw [abs_of_neg hneg, abs_of_neg (by linarith : a * (1/2) < 0)]
+    simp only [Prod.mk.injEq]
+    refine ⟨?_, ?_, ?_⟩ <;> first | (field_simp; done) | (field_simp; ring)
+  · have hapos : 0 < a := by
+      by_contra hcon
+      have hle : a ≤ 0 := not_lt.mp hcon
+      rcases eq_or_lt_of_le hle with h0 | hlt
+      · rw [hs_def, h0] at hpos; simp at hpos
+      · have : s < 0 := Real.sin_neg_of_neg_of_neg_pi_lt (by linarith) (by linarith [Real.pi_pos])
+        linarith
+    rw [abs_of_pos hpos, abs_of_pos (by linarith : 0 < a * (1/2))]
+    simp only [Prod.mk.injEq]
+    refine ⟨?_, ?_, ?_⟩ <;> first | (field_simp; done) | (field_simp; ring)
 
 
 end MjProof.Spatial
